@@ -111,7 +111,7 @@ META = {
             "design_ref": "DESIGN.md 4 (C19)", "note": "Trusted: the reference implementations in harness/props/c19_test.go; receipt wiring in cmd/main.go (queue size, HandleReceipts started) is outside these parts.", "technique": "property-based testing (rapid) with an independent reference implementation, plus fault injection on the forwarding path"},
     "C20": {"text": "Three generated-input oracles: (grid) insertion sequences of up to 40 quads with forced merges, merge chains and growth in all four directions, all index invariants re-checked after every insertion through exported API; (prim) Dot, Cross, normal, overlap test and ray/quad intersection against math/big.Rat evaluation of the same float32 inputs within stated tolerances; (shared) differential against a local grid fed with the same samples while members join and leave - the index must be shared and kept while the session lives. Exploration level.",
             "design_ref": "DESIGN.md 4 (C20)", "note": "Trusted: the invariant checker (harness/props/c20_test.go); float tolerances as stated; only horizontal planes are generated.", "technique": "property-based testing (rapid): data-structure invariants after every operation, exact-arithmetic reference, differential against a local instance"},
-    "C03": {"text": "Two oracles over generated multi-session histories (never-joining connections, switches, returns, ids valid only elsewhere, reused session ids): (a) the reference model - nothing a connection sends shows up in a session it is not in; (b) a differential (noninterference) oracle - for every session instance T the concrete trace is re-run on a fresh server keeping only the stints of connections while they are in T, and every stint's normalised message stream (session ids masked) must be identical. Exploration level: held on every generated history; no claim of absence.",
+    "C03": {"text": "Three oracles over generated multi-session histories (never-joining connections, switches, returns, ids valid only elsewhere, reused session ids): (a) the reference model - nothing a connection sends shows up in a session it is not in; (b) a differential (noninterference) oracle - for every session instance T the concrete trace is re-run on a fresh server keeping only the stints of connections while they are in T, and every stint's normalised message stream (session ids masked) must be identical; (c) the ground-plane index belongs to the session instance: as long as no member of the instance has sent a sample, every ground-plane, region and debug-info answer must be that of an empty grid (planes wholly inside the initial grid cell and queries spanning it are generated on purpose; this oracle does not depend on the state of earlier cases, so a leak through package-level state is reported, not lost as 'cannot reproduce'). Exploration level: held on every generated history; no claim of absence.",
             "design_ref": "DESIGN.md 4 (C03)", "note": _N + " Receipts (one global queue by design) and signed latency are excluded from these scripts; session references that depend on which released id is reissued next are rewritten.", "technique": "differential / noninterference property-based testing (rapid): full history vs per-session projection, plus reference model"},
     "C08": {"text": "Fault enumeration on the real stack: generated histories with hostile steps (undecodable/text/untimestamped frames, typed bodies that do not decode, pipelined bursts of 1-64 failing requests and up to 300 pings, absent sub-messages, non-finite/huge/subnormal coordinates, unknown types, silence, clients that stop reading, transport aborts) run over websocket.Handle with the production decorators on a fake clock with a 0.3-2 s idle timeout. After every step: no panic, exactly the connections the model says are ended (idle deadlines to the nanosecond; a client that keeps sending is not ended), departures as in C06, all other members' replicas and all sessions' server state untouched; at the end every handler returned, no connection/session goroutine is left, ws_connected_clients and session_count are back. A second part repeats pipelined bursts of failing requests thousands of times because the outcome depends on Go's randomised select.",
             "design_ref": "DESIGN.md 4 (C08)", "note": "Trusted: reference model; net.Pipe instead of TCP (no kernel buffering); survival of the OS process itself is not covered by this part (in-process panics are recorded the way net/http would swallow them).", "technique": "model-based fault injection with rapid on the real connection handler in a synctest bubble; repeated-schedule search for select-dependent outcomes"},
